@@ -249,7 +249,7 @@ def build_plot_data(
             ).dict(remove_empties, unit_lookup.get(name, ""))
             for name, metric in (metric_dict or COMMON_METRIC_DICT).items()
         }
-        for _, row in triangle.period_rows
+        for _, row in triangle.slice_period_rows
         for cell, prev_cell, next_cell 
         in zip(row, [None, *row[:-1]], [*row[1:], None])
     }
